@@ -194,6 +194,18 @@ async fn send_chunks(io: &mut dyn PeerIo, chunks: Vec<Vec<u8>>, pause_after_firs
     true
 }
 
+/// "early": how much of the hello an SSH server writes before it answers the subsystem request
+fn early_bytes(case: &Value) -> usize {
+    let total: usize = hello_stream().parts.iter().map(|p| p.len()).sum();
+    match case["early"].as_str().unwrap_or("") {
+        "all" => total,
+        "one-byte" => 1,
+        "half" => total / 2,
+        "all-but-one" => total - 1,
+        _ => 0,
+    }
+}
+
 /// Run the peer side of one case.
 async fn run_peer(io: &mut dyn PeerIo, case: &Value) {
     let kind = |s: &str| match s {
@@ -204,7 +216,17 @@ async fn run_peer(io: &mut dyn PeerIo, case: &Value) {
     let hello = hello_stream();
     let hclose = case["hello_close"].as_str().unwrap_or("none");
     let hupto = if hclose == "none" { None } else { close_at(&case["hello_close_at"]) };
-    let chunks = hello.chunks(&usizes(&case["hello_cuts"]), hupto);
+    let mut chunks = hello.chunks(&usizes(&case["hello_cuts"]), hupto);
+    // (SSH) the first bytes of the hello have gone out already, ahead of the answer to the subsystem request
+    let mut skip = early_bytes(case);
+    while skip > 0 && !chunks.is_empty() {
+        let n = skip.min(chunks[0].len());
+        chunks[0].drain(..n);
+        skip -= n;
+        if chunks[0].is_empty() {
+            chunks.remove(0);
+        }
+    }
     if !send_chunks(io, chunks, 0).await {
         return;
     }
@@ -514,6 +536,12 @@ impl russh::server::Handler for SshConn {
                 return Ok((self, session));
             }
             _ => {}
+        }
+        let early = early_bytes(&self.case);
+        if early > 0 {
+            // the subsystem is started (and writes) before the request is answered
+            let hello: Vec<u8> = hello_stream().parts.concat();
+            session.data(channel, russh::CryptoVec::from_slice(&hello[..early]));
         }
         session.channel_success(channel);
         let (tx, rx) = mpsc::unbounded_channel();
